@@ -508,6 +508,38 @@ fn main() {
             run_case_horizon(&spec, &objs, &script, &format!("q|{}|{}|{}|{}|{}|{}", nq, nrep, nsingle, spec.full_fdt, by_time, removal), 120, &mut cr);
             cr
         }));
+        // ---- ObjectsBeingTransferred mode with a session OTI too small for an FDT instance that lists two (or three)
+        // objects at once: a free multiplex slot selects the next object, the instance announcing it cannot be
+        // published, the selection is undone and tried again later. The objects still start in the order they were added.
+        let n4 = ctx.tier.pick(600usize, 40_000);
+        gens.push(Gen::new("fdt_too_small_for_the_slots", n4, move |ctx, i| {
+            let mut rng = Rng::keyed(ctx.seed, "C13f", 0, i as u64);
+            // Reed-Solomon, one symbol per block, at most 255 blocks: 2040 or 4080 bytes of FDT
+            let e = *rng.pick(&[8u16, 16]);
+            let mut oti = OtiSpec::new(Fec::Rs28, e, 1, 1);
+            oti.inband_fti = true;
+            let mut spec = SenderSpec::new(oti);
+            spec.full_fdt = false;
+            spec.interleave = rng.range(1, 3) as u8;
+            spec.queues = vec![(0, rng.range(2, 4) as u32)];
+            spec.fdt_carousel = CarouselSpec::DelayMs(3_600_000);
+            let nobj = rng.range(3, 7) as usize;
+            // a File entry of roughly 0.4 .. 0.6 of the limit: one fits, two or three do not
+            let pad = (e as usize * 255) * rng.range(30, 50) as usize / 100;
+            let mut objs = vec![];
+            let mut script = vec![];
+            for k in 0..nobj {
+                let len = 8 * rng.range(1, 9) as usize - rng.below(8) as usize;
+                let mut o = ObjSpec::new(gen_bytes(&mut rng, len.max(1)), &format!("file:///small-fdt/{}/{}", "p".repeat(pad.saturating_sub(330).max(1)), k));
+                o.oti = Some(OtiSpec::new(Fec::NoCode, 8, 4, 0));
+                o.priority = 0;
+                script.push((When::Start, Op::Add(k)));
+                objs.push(o);
+            }
+            let mut cr = CaseResult::default();
+            run_case_horizon(&spec, &objs, &script, &format!("f|{}|{}|{}|{}", e, nobj, spec.queues[0].1, spec.interleave), 200, &mut cr);
+            cr
+        }));
         // ---- carousel objects in a higher-priority queue, a long transmission in a lower one, a few packets per poll and
         // polls every 30-170 ms: when the carousel delay (150 ms .. 2.3 s, both repeat modes) of the high-priority object
         // is over, it goes first again
